@@ -23,23 +23,32 @@ func VerifC05Accepted() {
 	mode := verifrt.Param("MODE", 0)
 	U, A, K, I := verifrt.Param("U", 6), verifrt.Param("A", 6), verifrt.Param("K", 6), verifrt.Param("I", 8)
 
+	// FIXLEN=1: field lengths are fixed (contents stay symbolic) except the key id; the property is
+	// about the hand-off, the field extraction itself is C06's subject.
+	fix := verifrt.Param("FIXLEN", 0) == 1
+	fld := func(name string, min, max int, class string) verifrt.FieldSpec {
+		if fix {
+			return verifrt.F(name, max, max, class)
+		}
+		return verifrt.F(name, min, max, class)
+	}
 	var line, wantCred string
 	switch form {
 	case 0:
-		t := verifrt.Template("Accepted publickey for ", verifrt.F("user", 1, U, verifClassAccount),
-			" from ", verifrt.F("addr", 1, A, verifClassHost), " port ", verifrt.F("port", 1, 5, verifClassDigit),
-			" ssh2: ", verifrt.F("keytype", 1, 6, verifClassKeyType), " ", verifrt.F("hash", 1, 6, verifClassHash), ":", verifrt.F("fp", 1, K, verifClassFP))
+		t := verifrt.Template("Accepted publickey for ", fld("user", 1, U, verifClassAccount),
+			" from ", fld("addr", 1, A, verifClassHost), " port ", fld("port", 1, 5, verifClassDigit),
+			" ssh2: ", fld("keytype", 1, 6, verifClassKeyType), " ", fld("hash", 1, 6, verifClassHash), ":", fld("fp", 1, K, verifClassFP))
 		line, wantCred = t.Line, common.UnknownUser
 	case 1:
-		t := verifrt.Template("Accepted publickey for ", verifrt.F("user", 1, U, verifClassAccount),
-			" from ", verifrt.F("addr", 1, A, verifClassHost), " port ", verifrt.F("port", 1, 5, verifClassDigit),
-			" ssh2: ", verifrt.F("keytype", 1, 6, verifClassKeyType), " ", verifrt.F("hash", 1, 6, verifClassHash), ":", verifrt.F("fp", 1, K, verifClassFP),
-			" ID ", verifrt.F("keyid", 1, I, verifClassKeyID), " (serial ", verifrt.F("serial", 1, 4, verifClassDigit), ") CA ",
-			verifrt.F("catype", 1, 6, verifClassKeyType), " ", verifrt.F("cahash", 1, 6, verifClassHash), ":", verifrt.F("cafp", 1, K, verifClassFP))
+		t := verifrt.Template("Accepted publickey for ", fld("user", 1, U, verifClassAccount),
+			" from ", fld("addr", 1, A, verifClassHost), " port ", fld("port", 1, 5, verifClassDigit),
+			" ssh2: ", fld("keytype", 1, 6, verifClassKeyType), " ", fld("hash", 1, 6, verifClassHash), ":", fld("fp", 1, K, verifClassFP),
+			" ID ", verifrt.F("keyid", 1, I, verifClassKeyID), " (serial ", fld("serial", 1, 4, verifClassDigit), ") CA ",
+			fld("catype", 1, 6, verifClassKeyType), " ", fld("cahash", 1, 6, verifClassHash), ":", fld("cafp", 1, K, verifClassFP))
 		line, wantCred = t.Line, t.Fields[6]
 	default:
-		t := verifrt.Template("Accepted password for ", verifrt.F("user", 1, U, verifClassAccount),
-			" from ", verifrt.F("addr", 1, A, verifClassHost), " port ", verifrt.F("port", 1, 5, verifClassDigit), " ssh2")
+		t := verifrt.Template("Accepted password for ", fld("user", 1, U, verifClassAccount),
+			" from ", fld("addr", 1, A, verifClassHost), " port ", fld("port", 1, 5, verifClassDigit), " ssh2")
 		line, wantCred = t.Line, common.UnknownUser
 	}
 
